@@ -43,3 +43,23 @@ package encode
 //@   ensures [C08.enc.coord.exact C01.enc.coord] (=> (not (= result (int 4))) (fp.eq d f))
 //@   ensures [C08.enc.coord.close C01.enc.coord] (=> (and (= result (int 4)) (not (fp.isNaN f))) (spec.close4bits (f32bits f) (spec.bits4 (arr *b) start)))
 //@   ensures [C08.enc.coord.nan C01.enc.coord] (=> (= result (int 4)) (spec.close4nan f (spec.bits4 (arr *b) start)))
+
+//@ contract (*buffer).encodeZeroToOne
+//@   modifies *b mem.u8
+//@   timeout 300
+//@   let start (bvadd (off *b) (len (old *b)))
+//@   let d (spec.z2oV (arr *b) start)
+//@   ensures [C08.enc.z2o.append C01.enc.z2o] (appended *b result 4)
+//@   ensures [C08.enc.z2o.len C01.enc.z2o] (and (= (spec.numLen (select (arr *b) start)) result) (or (= result (int 1)) (= result (int 2)) (= result (int 4))))
+//@   ensures [C08.enc.z2o.close12 C01.enc.z2o] (=> (not (= result (int 4))) (or (fp.eq d f) (bvule (spec.absdiff32 (f32bits d) (f32bits f)) #x00000004)))
+//@   ensures [C08.enc.z2o.close C01.enc.z2o] (=> (and (= result (int 4)) (not (fp.isNaN f))) (spec.close4bits (f32bits f) (spec.bits4 (arr *b) start)))
+//@   ensures [C08.enc.z2o.nan C01.enc.z2o] (=> (= result (int 4)) (spec.close4nan f (spec.bits4 (arr *b) start)))
+
+//@ contract (*Encoder).quantize
+//@   let inrange (and (fp.leq ((_ to_fp 8 24) RNE (- 128.0)) coord) (fp.lt coord ((_ to_fp 8 24) RNE 128.0)))
+//@   let c64 (fp.mul RNE ((_ to_fp 11 53) RNE coord) ((_ to_fp 11 53) RNE 64.0))
+//@   let r64 (fp.mul RNE ((_ to_fp 11 53) RNE result) ((_ to_fp 11 53) RNE 64.0))
+//@   ensures [C08.quant.identity C01.quant] (=> (or e.highResolutionCoordinates (not inrange)) (= result coord))
+//@   ensures [C08.quant.grid C01.quant] (=> (and (not e.highResolutionCoordinates) inrange) (= r64 (fp.roundToIntegral RTZ r64)))
+//@   ensures [C08.quant.nearest C01.quant] (=> (and (not e.highResolutionCoordinates) inrange) (fp.leq (fp.abs (fp.sub RNE r64 c64)) ((_ to_fp 11 53) RNE 0.5)))
+//@   ensures [C08.quant.fixpoint C01.quant] (=> (and (not e.highResolutionCoordinates) inrange (= c64 (fp.roundToIntegral RTZ c64))) (fp.eq result coord))
